@@ -733,9 +733,30 @@ class SwingRecorder:
         self.orig = ConformalElectionModel.__dict__["get_unit_predictions"]
 
         def wrapped(self_, reporting_units, nonreporting_units, estimand, **kw):
-            out = rec.orig(self_, reporting_units, nonreporting_units, estimand, **kw)
+            from elexsolver.QuantileRegressionSolver import QuantileRegressionSolver
+
+            seen = []
+            real_fit = QuantileRegressionSolver.fit
+
+            def fit(solver, x, y, *a, **k):
+                if "weights" in k and k["weights"] is not None and not seen:
+                    seen.append(np.asarray(k["weights"], dtype=float).copy())
+                return real_fit(solver, x, y, *a, **k)
+
+            QuantileRegressionSolver.fit = fit
+            try:
+                out = rec.orig(self_, reporting_units, nonreporting_units, estimand, **kw)
+            finally:
+                QuantileRegressionSolver.fit = real_fit
+            # the weights the median regression was given are proportional to the last-election results (baseline + 1)
+            wprop = True
+            if seen:
+                want = np.asarray(reporting_units[f"baseline_{estimand}"], dtype=float) + 1.0
+                got = seen[0]
+                wprop = bool(len(got) == len(want) and np.allclose(got / got.sum(), want / want.sum(), rtol=1e-9, atol=0.0))
             rec.calls.append(
                 {
+                    "wprop": wprop,
                     "rep": [[_as_int(b), _as_int(c)] for b, c in zip(reporting_units[f"baseline_{estimand}"], reporting_units[f"results_{estimand}"])],
                     "non": [[_as_int(b), _as_int(c)] for b, c in zip(nonreporting_units[f"baseline_{estimand}"], nonreporting_units[f"results_{estimand}"])],
                     "pred": [_as_int(v) for v in np.asarray(out[0])],
@@ -752,34 +773,62 @@ class SwingRecorder:
         self.cls.get_unit_predictions = self.orig
 
 
+def _hamletise(pre, cur):
+    """most units two thousand times larger, every third reporting unit stays a hamlet: relative baseline weights < 1e-6"""
+    ids = pre.geographic_unit_fips.tolist()
+    big = set(ids[k] for k in range(len(ids)) if k % 3 != 0)
+    for frame, cols in ((pre, ("baseline_turnout", "baseline_dem", "baseline_gop")), (cur, ("results_turnout", "results_dem", "results_gop"))):
+        m = frame.geographic_unit_fips.isin(big)
+        for c in cols:
+            frame.loc[m, c] = frame.loc[m, c] * 2000
+        # the hamlets: a handful of voters each
+        t, d, g = cols
+        frame.loc[~m, t] = (frame.loc[~m, t] // 40).clip(lower=1)
+        frame.loc[~m, d] = np.minimum(frame.loc[~m, d] // 40, frame.loc[~m, t])
+        frame.loc[~m, g] = frame.loc[~m, t] - frame.loc[~m, d]
+    return pre, cur
+
+
+def _swing_client_run(pre, cur, seed, estimator):
+    with SwingRecorder() as rec:
+        synth.run_client(
+            pre,
+            cur,
+            estimands=[("turnout",), ("turnout", "dem"), ("dem", "turnout")][seed % 3],
+            pis=(0.7,),
+            pi_method=estimator,
+            features=(),
+            aggregates=["postal_code", "unit"],
+        )
+    return rec.calls
+
+
 def job_swing_run(arg):
-    """One real covariate-free client run on a random (non-dyadic) election -> a Trace_UniformSwing record."""
+    """One real covariate-free client run on a random (non-dyadic) election -> Trace_UniformSwing records.  Every fourth
+    job also runs the same election with very unequal unit sizes; its record keeps the scenario of the ordinary run
+    (the exact arithmetic of the specification would overflow on million-voter units) and carries the hamlet run's
+    verdict on the regression weights."""
     seed, n_rep, n_non, estimator = arg
     pre, cur = gate_election(n_rep, n_non, seed, lo=15, hi=400)
-    with SwingRecorder() as rec:
-        try:
-            synth.run_client(
-                pre,
-                cur,
-                estimands=[("turnout",), ("turnout", "dem"), ("dem", "turnout")][seed % 3],
-                pis=(0.7,),
-                pi_method=estimator,
-                features=(),
-                aggregates=["postal_code", "unit"],
-            )
-        except Exception as e:  # noqa: BLE001
-            return [{"kind": "raised", "exc": type(e).__name__, "msg": str(e)[:300], "args": list(arg), "tb": traceback.format_exc()[-1200:]}]
+    try:
+        calls = _swing_client_run(pre, cur, seed, estimator)
+        hamlet_calls = _swing_client_run(*_hamletise(pre.copy(), cur.copy()), seed, estimator) if seed % 4 == 0 else []
+    except Exception as e:  # noqa: BLE001
+        return [{"kind": "raised", "exc": type(e).__name__, "msg": str(e)[:300], "args": list(arg), "tb": traceback.format_exc()[-1200:]}]
     out = []
-    for c in rec.calls:
-        out.append(
-            {
-                "rep": [{"b": b, "c": cc} for b, cc in c["rep"]],
-                "non": [{"b": b, "partial": pp} for b, pp in c["non"]],
-                "pred": c["pred"],
-                "estimator": estimator,
-                "seed": seed,
-            }
-        )
+    for k, c in enumerate(calls):
+        rec = {
+            "rep": [{"b": b, "c": cc} for b, cc in c["rep"]],
+            "non": [{"b": b, "partial": pp} for b, pp in c["non"]],
+            "pred": c["pred"],
+            "estimator": estimator,
+            "seed": seed,
+            "wprop": c["wprop"],
+            "hamlets": False,
+        }
+        out.append(rec)
+        if k < len(hamlet_calls):
+            out.append(dict(rec, wprop=hamlet_calls[k]["wprop"], hamlets=True))
     return out
 
 
